@@ -4,6 +4,7 @@ From Verif Require Import Base.Prelude Gen.Constants Model.Tdc Proofs.Tdc.
 From Verif Require Model.Lazy Proofs.Lazy.
 From Verif Require Model.Reuse Proofs.Reuse.
 From Verif Require Model.PPool Proofs.PPool.
+From Verif Require Proofs.ReuseOwn.
 Open Scope N_scope.
 
 (** In every reachable state the two counters are exact: [reserved] is the
@@ -171,3 +172,13 @@ Example c09_pool_nonvacuous :
   | None => False
   end.
 Proof. vm_compute. reflexivity. Qed.
+
+(** * "No counter underflows or panics": the non-pipelined transport never installs an exchange on a
+    connection that still has a waiter (the Go code panics there with "bug: reusableConn: concurrent
+    exchange calls"). In every reachable state a call that holds a connection can install itself;
+    a connection is held by at most one call, and an idle connection has no waiter. *)
+Theorem c09_reuse_install_never_panics ls s c :
+  Model.Reuse.xrun Model.Reuse.xinit ls = Some s -> Model.Reuse.upc (Model.Reuse.xcalls s c) = Model.Reuse.UHave ->
+  exists s', Model.Reuse.xstep s (Model.Reuse.MInstall c) = Some s'.
+Proof. exact (Proofs.ReuseOwn.reuse_install_enabled ls s c). Qed.
+Print Assumptions c09_reuse_install_never_panics.
